@@ -1,7 +1,7 @@
 """KNOWN FINDING (C05): two global probes deactivated in non-LIFO order: the remaining probe stops receiving
 events, and deactivating it afterwards re-installs the first probe's handler."""
 import sys
-sys.path.insert(0, "/repo")
+sys.path.insert(0, __import__("os").environ.get("PVC_REPO", "/repo"))
 from ptera import global_probe
 from ptera.overlay import HandlerCollection
 
